@@ -1065,3 +1065,62 @@ def rule_descriptor_offset_block(ctx):
                              "DD blocks are written into the slots of another block" % (r[:80], root))
     ctx.floor("OWNBLOCK", 2, n, "(descriptor positions computed in routines that hold the descriptor's block)")
     return n
+
+
+def rule_null_slots_skipped(ctx):
+    """NULLSKIP (C12): a deleted descriptor keeps its slot: only its tag becomes DFTAG_NULL, the ref and offset stay behind.  Every
+    walk over the descriptor lists in HTIfind_dd that can report a slot as a match (`*pdd = ..`) must therefore step over
+    DFTAG_NULL slots before it compares anything else — or be the walk that looks for empty slots.  A walk that matches on the ref
+    alone reports a deleted entry as a live one, and wildcard enumeration stops at it."""
+    from .codec import ast_walk
+    from .facts import int_name, base_var
+    prog = ctx.prog
+    f = prog.func("HTIfind_dd")
+    if f is None or not f.raw.get("ast"):
+        ctx.unrecognised("NULLSKIP", "NULLSKIP:HTIfind_dd", "-", "HTIfind_dd not found")
+        return 0
+    loops = []
+    ast_walk(f.raw["ast"], lambda nd, st: (loops.append(nd) if nd[0] == "for" else None, True)[1])
+
+    def is_null_test(c):
+        """condition contains `<x>.tag == DFTAG_NULL` at its top level (possibly and-ed with more)"""
+        c = strip(c)
+        if kind(c) == "bin" and c[1] == "&&":
+            return is_null_test(c[2]) or is_null_test(c[3])
+        return kind(c) == "bin" and c[1] == "==" and (mem_field(c[2]) or (0, 0))[1] == "tag" and int_name(c[3]) == "DFTAG_NULL"
+
+    n = 0
+    for lp in loops:
+        body = lp[4]
+        kids = body[1] if body and body[0] == "block" else [body]
+        # innermost walks only: a direct child `if` whose arm stores into *pdd
+        match = None
+        for kid in kids:
+            if kid[0] == "if":
+                hit = []
+                ast_walk(kid[2], lambda nd, st: (hit.append(1) if nd[0] == "s" and any(x[0] == "asg" and kind(strip(x[2])) == "deref" and base_var(x[2]) == "pdd" for x in walk(nd[1], True)) else None, True)[1])
+                if hit:
+                    match = kid
+                    break
+        if match is None:
+            for kid in kids:
+                if kid[0] == "s" and any(x[0] == "asg" and kind(strip(x[2])) == "deref" and base_var(x[2]) == "pdd" for x in walk(kid[1], True)):
+                    match = ["if", ["int", 1], kid, None]
+                    break
+        if match is None:
+            continue
+        n += 1
+        key = "NULLSKIP:HTIfind_dd#%d" % n
+        line = lp[-3] if isinstance(lp[-3], int) else f.line
+        if is_null_test(match[1]) and kind(strip(match[1])) == "bin" and strip(match[1])[1] == "==":
+            ctx.holds("NULLSKIP", key, f.where(line), "this walk looks for empty slots", nontrivial=True)
+            continue
+        first = kids[0]
+        ok = first is not match and first[0] == "if" and is_null_test(first[1]) and first[2] is not None and \
+            ((first[2][0] == "continue") or (first[2][0] == "block" and first[2][1] and first[2][1][0][0] == "continue"))
+        if ok:
+            ctx.holds("NULLSKIP", key, f.where(line), "empty slots are stepped over before the match test `%s`" % render(match[1])[:70], nontrivial=True)
+        else:
+            ctx.violated("NULLSKIP", key, f.where(line), "this walk reports a slot as a match on `%s` without first stepping over DFTAG_NULL slots: a deleted descriptor (tag cleared, ref left behind) is found as if it were live" % render(match[1])[:80])
+    ctx.floor("NULLSKIP", 7, n, "(descriptor walks in HTIfind_dd that can report a match)")
+    return n
